@@ -241,6 +241,9 @@ class C02(runner.Check):
 					op["rs"] = -op["rs"]        # RandomState rejects negative seeds
 				op["seed_type"] = r.wchoice(["int", "numpy.int64", "numpy.int32"], [5, 1, 1])
 				op["np_bounds"] = r.chance(0.2)
+				op["verbose"] = r.chance(0.25)
+				if L <= 40 and r.chance(0.04):
+					op["n"] = r.randint(257, 520)          # more shuffles than any block size
 				op["xkind"] = r.wchoice(["float32", "int8", "float64", "strided", "float16",
 					"bfloat16"], [8, 4, 2, 2, 1, 1])
 				if r.chance(0.35):
@@ -442,6 +445,7 @@ class C02(runner.Check):
 						rs = op["rs"]
 						if op.get("seed_type", "int") != "int":
 							rs = getattr(numpy, op["seed_type"].split(".")[1])(rs)
+						vkw = {"verbose": True} if (op.get("verbose") and kind == "dinuc") else {}
 						s_, e_, n_ = s, e, op["n"]
 						if op.get("np_bounds"):
 							s_, e_, n_ = numpy.int64(s), numpy.int64(e), numpy.int64(op["n"])
@@ -459,12 +463,18 @@ class C02(runner.Check):
 									torch.manual_seed(k * 31)
 								else:
 									_random.random()
-							box["Y"], npts, fired = run_with_interference(lambda: fn(X, start=s_,
-								end=e_, n=n_, random_state=rs), "tangermeme", itf["points"],
-								interfere)
+							import contextlib, io as _io
+							with contextlib.redirect_stdout(_io.StringIO()), \
+									contextlib.redirect_stderr(_io.StringIO()):
+								box["Y"], npts, fired = run_with_interference(lambda: fn(X,
+									start=s_, end=e_, n=n_, random_state=rs, **vkw), "tangermeme",
+									itf["points"], interfere)
 							box["fired"] = fired
 						else:
-							box["Y"] = fn(X, start=s_, end=e_, n=n_, random_state=rs)
+							import contextlib, io as _io
+							with contextlib.redirect_stdout(_io.StringIO()), \
+									contextlib.redirect_stderr(_io.StringIO()):
+								box["Y"] = fn(X, start=s_, end=e_, n=n_, random_state=rs, **vkw)
 					except BaseException as ex:
 						box["exc"] = ex
 				if op.get("thread"):
